@@ -23,8 +23,9 @@ type kscen struct {
 	ZeroP  bool  `json:"zeroP"`
 	ZeroN  bool  `json:"zeroN"`
 	LieN   bool  `json:"lieN"`
-	LieB   []int `json:"lieB"`
-	Accept bool  `json:"accept"`
+	LieB    []int `json:"lieB"`
+	MulFree bool  `json:"mulFree"` // the multipliers of the exponentiation chains of the primality proof are the prover's choice
+	Accept  bool  `json:"accept"`
 }
 
 func zeroforge(a *hx.Args, res *hx.Result) {
@@ -85,6 +86,9 @@ func zeroforge(a *hx.Args, res *hx.Result) {
 	for _, s := range scen {
 		if !s.ZeroP && !s.ZeroN {
 			jobs = append(jobs, job{s, 0})
+			if s.MulFree {
+				jobs = append(jobs, job{s, 1}) // control: the same claims with the committed base powers as multipliers
+			}
 			continue
 		}
 		for r := range reps {
@@ -127,13 +131,22 @@ func zeroforge(a *hx.Args, res *hx.Result) {
 			roots = append(roots, G(root))
 		}
 		label := fmt.Sprintf("zeroP=%v zeroN=%v lieN=%v lieB=%v rep=%s", s.ZeroP, s.ZeroN, s.LieN, s.LieB, reps[j.rep].name)
+		if s.MulFree {
+			label = fmt.Sprintf("composite (P-1)/2 committed honestly, free multipliers=%v", j.rep == 0)
+		}
 		res.Eval(label)
 		det := hx.M{"scenario": s, "representative": reps[j.rep].name, "n": n.String(), "P": P.String(), "Q": Q.String()}
 		var accepted bool
 		var berr error
 		panicked, msg := hx.Try(func() {
 			var proof keyproof.ValidKeyProof
-			if !s.ZeroP && !s.ZeroN {
+			if s.MulFree {
+				var ok bool
+				if proof, ok = keyproof.VerifForgeFreeMultipliers(G(av), e, G(bv), bases, j.rep == 0); !ok {
+					berr = fmt.Errorf("no answerable ASPP challenge")
+					return
+				}
+			} else if !s.ZeroP && !s.ZeroN {
 				st := keyproof.NewValidKeyProofStructure(G(n), bases)
 				proof = st.BuildProof(G(av), G(bv))
 			} else {
@@ -170,7 +183,7 @@ func zeroforge(a *hx.Args, res *hx.Result) {
 			hx.Fatal("cheating prover failed for %s: %v", label, berr)
 		case accepted && (s.LieN || len(s.LieB) > 0):
 			res.Violation("key-proof-accepted-for-bad-key", "ValidKeyProof accepted for "+map[bool]string{true: "a modulus with a factor that is no safe prime", false: "a genuine modulus"}[s.LieN]+
-				fmt.Sprintf(" and %d base(s) that are no squares, built around commitments that are 0 modulo the group prime (%s)", len(s.LieB), label), det)
+				fmt.Sprintf(" and %d base(s) that are no squares (%s)", len(s.LieB), label), det)
 		case accepted != s.Accept:
 			res.Violation("key-proof-verdict-diverges", fmt.Sprintf("specification %v, code %v for %s", s.Accept, accepted, label), det)
 		default:
